@@ -227,15 +227,15 @@ func MergeErrors(err, other error) error {
 	}
 	e := asError(err)
 	o := asError(other)
-	if e.Name == "error" {
-		e.Name = o.Name
-	}
 
 	// Combine error lineage. We only ever put original errors into the history slice, so we
 	// don't need to worry about gaining intermediate merges.
 	//
 	// Do this before we modify ourselves, as History() may include us!
-	e.history = append(e.History(), o.History()...)
+	e.history = append(historySnapshot(e), historySnapshot(o)...)
+	if e.Name == "error" {
+		e.Name = o.Name
+	}
 	e.err = errors.Join(e.err, o.err)
 
 	e.Message = e.Message + "; " + o.Message
@@ -253,6 +253,17 @@ func (e *ServiceError) History() []*ServiceError {
 	}
 
 	return []*ServiceError{e}
+}
+
+// historySnapshot returns the history of e. If e is an original error (i.e. not
+// the result of a merge) the history consists of a copy of e so that it is not
+// affected by subsequent merges which update the error in place.
+func historySnapshot(e *ServiceError) []*ServiceError {
+	if len(e.history) > 0 {
+		return e.history
+	}
+	orig := *e
+	return []*ServiceError{&orig}
 }
 
 // Error returns the error message.
